@@ -157,6 +157,7 @@ type Machine struct {
 	allocBudget int64
 	panicOK     bool
 	overrides   map[string]Value
+	curFrame    *frame // innermost frame (tracing only)
 	preemptBound, preemptions int // context bound: at most preemptBound switches away from a runnable thread (0 = unbounded)
 	coarse      bool // preempt only at vsym_Event/vsym_Yield and when a thread blocks
 	events      []string
